@@ -3,11 +3,12 @@ import Anndb.Generated
 /-!
 # C13 — The index is safe under concurrent inserts, removals and searches (partial)
 
-Proved about the micro-step model (all interleavings): what a search finds not tombstoned was
-stored at some instant of that search (any number of writers); with a single writer the entry
-point is a stored vertex whenever the writer is between operations. Proved as counterexamples:
-the search's *start vertex* may have been removed before the search began (D23), and with two
-writers the entry point can be handed to a removed vertex. Not expressible here: data-race
+Proved about the micro-step model (all interleavings): what a search finds not tombstoned, and
+everything it returns, was stored at some instant of that search (any number of writers); with a
+single writer the entry point is a stored vertex whenever the writer is between operations. Proved
+as reachable states: the search's *start vertex* may have been removed before the search began (it
+is then traversed, not returned), and with two writers the entry point can be handed to a removed
+vertex. Not expressible here: data-race
 freedom in the Go memory model and runtime panics on concurrent map access — the `conc` engine
 runs the real index under the race detector instead.
 -/
@@ -81,6 +82,7 @@ theorem invA_step (nw : Nat) (c c' : Cfg) (h : InvA c) (s : Step nw c c') : InvA
     rcases List.mem_cons.mp hu with rfl | hu
     · exact h2 hs u (h1 u he ht)
     · exact h3 u hu
+  | searchReturn v hs hv ht => exact ⟨h1, h2, h3, h4, h5⟩
 
 theorem invA_reach (nw : Nat) (c : Cfg) (r : Reach nw init c) : InvA c := by
   induction r with
@@ -93,6 +95,111 @@ vertex and vertices it found not tombstoned; the start vertex is the exception b
 theorem visited_was_live_during_search (nw : Nat) (c : Cfg) (r : Reach nw init c) :
     ∀ v ∈ c.okVisited, c.liveDuring v = true :=
   (invA_reach nw c r).visited
+
+/-! ## any number of writers: what a search returns was stored at some instant of that search -/
+
+/-- the entry point, a writer's hand-over target and a search's start vertex are vertices that
+were stored at some time; everything handed back was stored during the search -/
+structure InvR (c : Cfg) : Prop where
+  entryEver : ∀ u, c.entry = some u → c.ever u = true
+  chosenEver : ∀ i v x, c.wpc i = .chosen v (some x) → c.ever x = true
+  startEver : ∀ v, c.start = some v → c.ever v = true
+  ret : ∀ v ∈ c.returned, c.liveDuring v = true
+  retNotStarted : c.started = false → c.returned = []
+
+theorem invR_init : InvR init := by
+  refine ⟨?_, ?_, ?_, ?_, ?_⟩ <;> simp [init]
+
+theorem invR_step (nw : Nat) (c c' : Cfg) (ha : InvA c) (h : InvR c) (s : Step nw c c') : InvR c' := by
+  obtain ⟨h1, h2, h3, h4, h5⟩ := h
+  cases s with
+  | store i v hi hw he =>
+    refine ⟨?_, ?_, ?_, ?_, h5⟩
+    · intro u hu
+      simp only [setF]
+      by_cases huv : u = v
+      · simp [huv]
+      · simp only [huv, if_false]
+        by_cases hen : c.entry = none
+        · simp only [hen, if_true, Option.some.injEq] at hu; exact absurd hu.symm huv
+        · simp only [hen, if_false] at hu; exact h1 u hu
+    · intro j a x hc
+      simp only [setF]
+      by_cases hxv : x = v
+      · simp [hxv]
+      · simp only [hxv, if_false]; exact h2 j a x hc
+    · intro u hu
+      simp only [setF]
+      by_cases huv : u = v
+      · simp [huv]
+      · simp only [huv, if_false]; exact h3 u hu
+    · intro u hu
+      simp only [setF]
+      by_cases huv : u = v
+      · simp [huv]
+      · simp only [huv, if_false]; exact h4 u hu
+  | insPromote i v hi hw hs =>
+    refine ⟨?_, h2, h3, h4, h5⟩
+    intro u hu
+    have : v = u := Option.some.inj hu
+    subst this
+    exact ha.storedEver _ hs
+  | remTomb i v hi hw hs =>
+    refine ⟨h1, ?_, h3, h4, h5⟩
+    intro j a x hc
+    simp only [setF] at hc
+    by_cases hji : j = i
+    · simp [hji] at hc
+    · simp only [hji, if_false] at hc; exact h2 j a x hc
+  | remChoose i v w hi hw hst hnone =>
+    refine ⟨h1, ?_, h3, h4, h5⟩
+    intro j a x hc
+    simp only [setF] at hc
+    by_cases hji : j = i
+    · simp only [hji, if_true] at hc
+      injection hc with _ hwx
+      exact ha.storedEver x (hst x hwx)
+    · simp only [hji, if_false] at hc; exact h2 j a x hc
+  | remHandover i v w hi hw =>
+    refine ⟨?_, ?_, h3, h4, h5⟩
+    · intro u hu
+      by_cases hev : c.entry = some v
+      · simp only [hev, if_true] at hu
+        exact h2 i v u (by rw [hw, hu])
+      · simp only [hev, if_false] at hu; exact h1 u hu
+    · intro j a x hc
+      simp only [setF] at hc
+      by_cases hji : j = i
+      · simp [hji] at hc
+      · simp only [hji, if_false] at hc; exact h2 j a x hc
+  | searchStart hs =>
+    refine ⟨h1, h2, ?_, ?_, ?_⟩
+    · intro v hv; exact h1 v hv
+    · intro v hv
+      rw [h5 hs] at hv; cases hv
+    · intro hst; simp at hst
+  | searchVisit v hs he ht => exact ⟨h1, h2, h3, h4, h5⟩
+  | searchReturn v hs hv ht =>
+    refine ⟨h1, h2, h3, ?_, ?_⟩
+    · intro u hu
+      rcases List.mem_cons.mp hu with rfl | hu
+      · rcases hv with hstart | hvis
+        · exact ha.during hs u (ha.notTomb u (h3 u hstart) ht)
+        · exact ha.visited u hvis
+      · exact h4 u hu
+    · intro hst; rw [hs] at hst; cases hst
+
+theorem invAR_reach (nw : Nat) (c : Cfg) (r : Reach nw init c) : InvA c ∧ InvR c := by
+  induction r with
+  | refl => exact ⟨invA_init, invR_init⟩
+  | step _ s ih => exact ⟨invA_step nw _ _ ih.1 s, invR_step nw _ _ ih.1 ih.2 s⟩
+
+/-- **Every vertex a search returns was stored at some instant of that search** — for every
+interleaving with any number of concurrent writers, including a search whose start vertex had been
+removed before it began (the result assembly tests the tombstone: `search_skips_tombstoned`). -/
+theorem returned_was_live_during_search (nw : Nat) (c : Cfg) (r : Reach nw init c) :
+    ∀ v ∈ c.returned, c.liveDuring v = true :=
+  (invAR_reach nw c r).2.ret
 
 /-! ## single writer: the entry point is a stored vertex whenever the writer is between operations -/
 
@@ -194,6 +301,7 @@ theorem invW_step (c c' : Cfg) (h : InvW c) (s : Step 1 c c') : InvW c' := by
     · intro a hc; simp [setF] at hc
   | searchStart hs => exact ⟨h1, h2, h3, h4⟩
   | searchVisit v hs he ht => exact ⟨h1, h2, h3, h4⟩
+  | searchReturn v hs hv ht => exact ⟨h1, h2, h3, h4⟩
 
 theorem invW_reach (c : Cfg) (r : Reach 1 init c) : InvW c := by
   induction r with
@@ -210,9 +318,10 @@ theorem single_writer_entry_live (c : Cfg) (r : Reach 1 init c) (hq : c.wpc 0 = 
 
 /-! ## the two exceptions, as reachable states -/
 
-/-- **D23 (known finding)**: a search that starts after `removeVertex` tombstoned the entry point
-and before the hand-over takes the removed vertex as its start vertex: it was stored at no
-instant of the search. One writer suffices. -/
+/-- a search that starts after `removeVertex` tombstoned the entry point and before the hand-over
+takes the removed vertex as its start vertex: it was stored at no instant of the search. One writer
+suffices. (This was defect D23 while the result was assembled without a tombstone test; by
+`returned_was_live_during_search` such a start vertex is traversed but never returned.) -/
 theorem search_may_start_at_removed_entry :
     ∃ c, Reach 1 init c ∧ c.started = true ∧ c.start = some 7 ∧ c.liveDuring 7 = false := by
   have r1 := Reach.step (nw := 1) .refl (Step.store init 0 7 (by decide) rfl rfl)
@@ -245,5 +354,8 @@ lock; no edge lock is taken while another edge lock or a shard lock is held -/
 theorem locking_shape :
     Generated.indexStoreRemoveAtomic = true ∧ Generated.indexReadsUnderShardLock = true ∧
     Generated.indexNoNestedEdgeLocks = true := by decide
+
+/-- `Search` tests the tombstone of every vertex it puts into its result -/
+theorem search_skips_tombstoned : Generated.searchSkipsTombstonedResults = true := by decide
 
 end Anndb.C13
